@@ -24,11 +24,13 @@ func init() {
 }
 
 type pipeOut struct {
-	fp, printed, dump, resolved, errs string
+	fp, printed, dump, resolved, errs, panicked string
 }
 
 func (a pipeOut) diff(b pipeOut) string {
 	switch {
+	case a.panicked != b.panicked:
+		return "panic"
 	case a.fp != b.fp:
 		return "tree"
 	case a.errs != b.errs:
@@ -53,8 +55,14 @@ func errString(es []*errors.Error) string {
 
 // pipeline runs parse -> print -> dump -> resolve for one input.  mk builds the parser (so that callers can
 // register it for gating); w wraps the printer's writer.
-func pipeline(src []byte, ver string, onParser func(p interface{}), wrap func(io.Writer) io.Writer) pipeOut {
-	var out pipeOut
+// A panic of the code under test is part of the pipeline's result (C01 decides whether it is allowed; C11 only
+// demands that the result under concurrency equals the result obtained alone).
+func pipeline(src []byte, ver string, onParser func(p interface{}), wrap func(io.Writer) io.Writer) (out pipeOut) {
+	defer func() {
+		if r := recover(); r != nil {
+			out = pipeOut{panicked: fmt.Sprint(r)}
+		}
+	}()
 	var errs []*errors.Error
 	cfg := conf.Config{Version: parseVersion(Task{"ver": ver}), ErrorHandlerFunc: func(e *errors.Error) { errs = append(errs, e) }}
 	var root ast.Vertex
